@@ -101,7 +101,10 @@ fn by_array(src: &mut Src) -> J {
                 o.insert(
                     "k".to_string(),
                     if k_num {
-                        if src.flip() {
+                        if src.chance(24) {
+                            // a negative zero ties with every other zero
+                            J::f(-0.0)
+                        } else if src.flip() {
                             J::int(src.range(0, 3))
                         } else {
                             J::f(src.range(0, 3) as f64)
@@ -594,11 +597,11 @@ pub fn property() -> Property {
         minimise: Some(minimise),
         subs: vec![
             Sub::Custom(CustomSub { name: "cross", run: cross, replay: replay_cross }),
-            Sub::Bytes(BytesSub { name: "direct", f: direct, max_len: 700, quick: Budget { threads: 8, cases: 6000 }, thorough: Budget { threads: 16, cases: 300_000 }, keep_unreproducible: false }),
-            Sub::Bytes(BytesSub { name: "nested", f: nested, max_len: 2500, quick: Budget { threads: 8, cases: 3000 }, thorough: Budget { threads: 16, cases: 120_000 }, keep_unreproducible: false }),
-            Sub::Bytes(BytesSub { name: "mixed", f: mixed, max_len: 1500, quick: Budget { threads: 8, cases: 3000 }, thorough: Budget { threads: 16, cases: 120_000 }, keep_unreproducible: false }),
-            Sub::Bytes(BytesSub { name: "call-towers", f: call_towers, max_len: 2500, quick: Budget { threads: 4, cases: 1000 }, thorough: Budget { threads: 16, cases: 40_000 }, keep_unreproducible: false }),
-            Sub::Bytes(BytesSub { name: "counting", f: counting, max_len: 500, quick: Budget { threads: 4, cases: 1500 }, thorough: Budget { threads: 16, cases: 50_000 }, keep_unreproducible: false }),
+            Sub::Bytes(BytesSub { name: "direct", f: direct, max_len: 700, quick: Budget { threads: 8, cases: 24000 }, thorough: Budget { threads: 16, cases: 300_000 }, keep_unreproducible: false }),
+            Sub::Bytes(BytesSub { name: "nested", f: nested, max_len: 2500, quick: Budget { threads: 8, cases: 12000 }, thorough: Budget { threads: 16, cases: 120_000 }, keep_unreproducible: false }),
+            Sub::Bytes(BytesSub { name: "mixed", f: mixed, max_len: 1500, quick: Budget { threads: 8, cases: 12000 }, thorough: Budget { threads: 16, cases: 120_000 }, keep_unreproducible: false }),
+            Sub::Bytes(BytesSub { name: "call-towers", f: call_towers, max_len: 2500, quick: Budget { threads: 4, cases: 4000 }, thorough: Budget { threads: 16, cases: 40_000 }, keep_unreproducible: false }),
+            Sub::Bytes(BytesSub { name: "counting", f: counting, max_len: 500, quick: Budget { threads: 4, cases: 6000 }, thorough: Budget { threads: 16, cases: 50_000 }, keep_unreproducible: false }),
         ],
     }
 }
